@@ -4,6 +4,7 @@ CONSTANTS
   NUp = 2
   NDown = 2
   MaxFaults = 2
+  MaxDrops = 1
 SPECIFICATION FairSpec
 INVARIANTS TypeOK PrefixDelivered OnlyOwnSegments OneAcceptPerSession OneCurrent NeverDead
 PROPERTIES EventuallyDelivered
